@@ -340,6 +340,7 @@ theorem PN_step (crc : List Nat → Nat) (ser : Entry → List Nat) (de : List N
     have := nodup_filter_keys c.pending (fun p => !p.2.phase.final) h
     simpa [mKeys, List.map_map, Function.comp_def] using this
   | decisions => exact h
+  | truncate => exact h
   | crash n now cfg =>
     simp only [step]
     split
@@ -703,7 +704,7 @@ theorem SyncTx_recoverTx (ip : InProg) (tx : Tx) (now : Nat) (h : SyncTx ip tx) 
 
 theorem Sync_step (crc : List Nat → Nat) (ser : Entry → List Nat) (de : List Nat → Option Entry)
     (c : Coord) (s : Step) (hn : c.cfg.NoRotate) (hpn : PN c) (h : Sync c)
-    (hs : StepOK crc ser de c s) : Sync (step crc ser de c s).1 := by
+    (hs : StepOK crc ser de c s) (ht : s = Step.truncate → c.pending = []) : Sync (step crc ser de c s).1 := by
   cases s with
   | lock tx h' => exact Sync_sub c _ h rfl (fun _ _ hm => hm)
   | «begin» id parts now => exact Sync_begin _ c hn id parts now h
@@ -748,6 +749,10 @@ theorem Sync_step (crc : List Nat → Nat) (ser : Entry → List Nat) (de : List
     obtain ⟨ip, hip, hsx⟩ := h p.1 p.2 hp
     exact ⟨ip, hip, SyncTx_recoverTx ip p.2 now hsx⟩
   | decisions => exact h
+  | truncate =>
+    intro x tx hm
+    simp only [step, ht rfl] at hm
+    cases hm
   | crash n now cfg =>
     rw [step_crash_eq crc ser de c n now cfg hs]
     exact Sync_restartLog cfg _ now
@@ -860,7 +865,7 @@ theorem harmless_of_inert (e : Entry) (h : Inert e) : Harmless e := by
     crash appends only records that cannot make a transaction Prepared -/
 theorem step_grows_harmless (crc : List Nat → Nat) (ser : Entry → List Nat) (de : List Nat → Option Entry)
     (c : Coord) (hn : c.cfg.NoRotate) (s : Step) (hs : ∀ n now cfg, s ≠ Step.crash n now cfg)
-    (hv : ∀ id sh v x, s ≠ Step.vote id sh v x) :
+    (hv : ∀ id sh v x, s ≠ Step.vote id sh v x) (ht : s ≠ Step.truncate) :
     ∃ es, (step crc ser de c s).1.log = c.log ++ es ∧ ∀ e ∈ es, Harmless e := by
   have nil : ∃ es, c.log = c.log ++ es ∧ ∀ e ∈ es, Harmless e := ⟨[], by simp, by simp⟩
   cases s with
@@ -952,6 +957,7 @@ theorem step_grows_harmless (crc : List Nat → Nat) (ser : Entry → List Nat) 
   | recover now => exact nil
   | recoverMem now => exact nil
   | decisions => exact nil
+  | truncate => exact absurd rfl ht
   | crash n now cfg => exact absurd rfl (hs n now cfg)
 
 theorem preparedAck_not_vote (c' : Coord) (s : Step) (r : Res) (hv : ∀ id sh v x, s ≠ Step.vote id sh v x) :
@@ -1043,42 +1049,49 @@ theorem Good_fresh (cfg : Cfg) (h : cfg.NoRotate) : Good { cfg := cfg } [] where
   sync := Sync_fresh cfg []
   ph := PH_nil []
 
-/-- the configurations of every process of the run keep the size limit from rotating the file -/
-def NoRotateSteps : List Step → Prop
-  | [] => True
-  | .crash _ _ cfg :: ss => cfg.NoRotate ∧ NoRotateSteps ss
-  | _ :: ss => NoRotateSteps ss
+/-- what one step must respect for the file to keep its records: a restart configures a WAL whose
+    size limit does not rotate, and `truncate_wal` is only called with no transaction pending (a
+    checkpoint) -/
+def StepKeeps (c : Coord) : Step → Prop
+  | .crash _ _ cfg => cfg.NoRotate
+  | .truncate => c.pending = []
+  | _ => True
 
-theorem NoRotateSteps_cons (s : Step) (ss : List Step) (h : NoRotateSteps (s :: ss)) :
-    NoRotateSteps ss ∧ ∀ n now cfg, s = Step.crash n now cfg → cfg.NoRotate := by
-  cases s <;> first
-    | exact ⟨h, by intro n now cfg he; cases he⟩
-    | exact ⟨h.2, by intro n now cfg he; cases he; exact h.1⟩
+/-- ... along a run -/
+def KeepsRecords (crc : List Nat → Nat) (ser : Entry → List Nat) (de : List Nat → Option Entry) :
+    Coord → List Step → Prop
+  | _, [] => True
+  | c, s :: ss => StepKeeps c s ∧ KeepsRecords crc ser de (step crc ser de c s).1 ss
 
 theorem Good_step (crc : List Nat → Nat) (ser : Entry → List Nat) (de : List Nat → Option Entry)
     (c : Coord) (hist : List (Nat × Tx)) (s : Step) (hg : Good c hist) (hs : StepOK crc ser de c s)
-    (hnr : ∀ n now cfg, s = Step.crash n now cfg → cfg.NoRotate) :
+    (hk : StepKeeps c s) :
     Good (step crc ser de c s).1 (hist ++ preparedAck (step crc ser de c s).1 s (step crc ser de c s).2) := by
+  have htr : s = Step.truncate → c.pending = [] := by
+    intro h; subst h; exact hk
   by_cases hc : ∃ n now cfg, s = Step.crash n now cfg
   · obtain ⟨n, now, cfg, rfl⟩ := hc
-    have hcfg := hnr n now cfg rfl
+    have hcfg : cfg.NoRotate := hk
     refine ⟨?_, Inv_step crc ser de c _ hg.inv hs, PN_step crc ser de c _ hg.pn,
-      Sync_step crc ser de c _ hg.noRotate hg.pn hg.sync hs, ?_⟩
+      Sync_step crc ser de c _ hg.noRotate hg.pn hg.sync hs htr, ?_⟩
     · rw [step_crash_eq crc ser de c n now cfg hs]; exact hcfg
     · rw [preparedAck_not_vote _ _ _ (by intro _ _ _ _ h; cases h), List.append_nil,
         step_crash_eq crc ser de c n now cfg hs]
       exact PH_take hist c.log _ hg.ph
   · have hc' : ∀ n now cfg, s ≠ Step.crash n now cfg := fun n now cfg h => hc ⟨n, now, cfg, h⟩
     refine ⟨?_, Inv_step crc ser de c _ hg.inv hs, PN_step crc ser de c _ hg.pn,
-      Sync_step crc ser de c _ hg.noRotate hg.pn hg.sync hs, ?_⟩
+      Sync_step crc ser de c _ hg.noRotate hg.pn hg.sync hs htr, ?_⟩
     · rw [step_cfg crc ser de c s hc']; exact hg.noRotate
     · by_cases hv : ∃ id sh v x, s = Step.vote id sh v x
       · obtain ⟨id, sh, v, x, rfl⟩ := hv
         exact PH_recordVote _ c hg.noRotate hg.pn hg.sync hist hg.ph id sh v x
       · have hv' : ∀ id sh v x, s ≠ Step.vote id sh v x := fun id sh v x h => hv ⟨id, sh, v, x, h⟩
         rw [preparedAck_not_vote _ _ _ hv', List.append_nil]
-        obtain ⟨es, hes, hh⟩ := step_grows_harmless crc ser de c hg.noRotate s hc' hv'
-        rw [hes]; exact PH_append_harmless hist c.log es hg.ph hh
+        by_cases ht : s = Step.truncate
+        · subst ht
+          simpa [step] using PH_nil hist
+        · obtain ⟨es, hes, hh⟩ := step_grows_harmless crc ser de c hg.noRotate s hc' hv' ht
+          rw [hes]; exact PH_append_harmless hist c.log es hg.ph hh
 
 theorem acks_cons (crc : List Nat → Nat) (ser : Entry → List Nat) (de : List Nat → Option Entry)
     (c : Coord) (s : Step) (ss : List Step) :
@@ -1087,14 +1100,13 @@ theorem acks_cons (crc : List Nat → Nat) (ser : Entry → List Nat) (de : List
 
 theorem Good_run (crc : List Nat → Nat) (ser : Entry → List Nat) (de : List Nat → Option Entry)
     (c : Coord) (hist : List (Nat × Tx)) (ss : List Step) (hg : Good c hist)
-    (hv : Valid crc ser de c ss) (hnr : NoRotateSteps ss) :
+    (hv : Valid crc ser de c ss) (hnr : KeepsRecords crc ser de c ss) :
     Good (run crc ser de c ss) (hist ++ acks crc ser de c ss) := by
   induction ss generalizing c hist with
   | nil => simpa [run, acks] using hg
   | cons s ss ih =>
     rw [run_cons, acks_cons, ← List.append_assoc]
-    obtain ⟨h1, h2⟩ := NoRotateSteps_cons s ss hnr
-    exact ih _ _ (Good_step crc ser de c hist s hg hv.1 h2) hv.2 h1
+    exact ih _ _ (Good_step crc ser de c hist s hg hv.1 hnr.1) hv.2 hnr.2
 
 
 /-! ## completion: answers against the log, locks -/
@@ -1255,11 +1267,23 @@ theorem recoverMem_commits (c : Coord) (hpn : PN c) (x : Nat) (t : Tx) (now : Na
   · simp [completeCommit, hlk]
 
 
-instance decNoRotateSteps : (ss : List Step) → Decidable (NoRotateSteps ss)
-  | [] => isTrue trivial
-  | s :: ss =>
-    have := decNoRotateSteps ss
-    by cases s <;> (simp only [NoRotateSteps]; infer_instance)
+instance (c : Coord) (s : Step) : Decidable (StepKeeps c s) := by
+  cases s <;> (unfold StepKeeps; infer_instance)
+
+instance decKeepsRecords (crc : List Nat → Nat) (ser : Entry → List Nat) (de : List Nat → Option Entry) :
+    (c : Coord) → (ss : List Step) → Decidable (KeepsRecords crc ser de c ss)
+  | _, [] => isTrue trivial
+  | c, s :: ss =>
+    have := decKeepsRecords crc ser de (step crc ser de c s).1 ss
+    by unfold KeepsRecords; infer_instance
+
+theorem KeepsRecords_append (crc : List Nat → Nat) (ser : Entry → List Nat) (de : List Nat → Option Entry)
+    (c : Coord) (a b : List Step) :
+    KeepsRecords crc ser de c (a ++ b) ↔ KeepsRecords crc ser de c a ∧ KeepsRecords crc ser de (run crc ser de c a) b := by
+  induction a generalizing c with
+  | nil => simp [KeepsRecords, run]
+  | cons s a ih =>
+    simp only [List.cons_append, KeepsRecords, run_cons, ih, and_assoc]
 
 /-- `restore_tx` rebuilds the vote map of the scan -/
 theorem lookup_restore (vs : List (Nat × VoteKind)) (hn : (mKeys vs).Nodup) (s : Nat) :
@@ -1306,5 +1330,48 @@ theorem abort_noCap (sz : Entry → Nat) (c : Coord) (hcap : c.cfg.walCap = none
   unfold abort
   simp only [hl, walApp_noCap _ _ hcap]
   simp
+
+
+/-- every transaction the scan of the surviving log holds as Prepared / Committing / Aborting is
+    pending after the restart, restored from the scan in that phase -/
+theorem restart_phase (cfg : Cfg) (L : List Entry) (now : Nat) (x : Nat) (ip : InProg)
+    (hm : (x, ip) ∈ (scan L).inProgress)
+    (hp : ip.phase = .prepared ∨ ip.phase = .committing ∨ ip.phase = .aborting) :
+    mLookup x (restartLog cfg L now).pending = some (restoreTx ⟨x, ip.parts, ip.votes⟩ ip.phase now) := by
+  have hs := Sync_restartLog cfg L now
+  have hpn : PN (restartLog cfg L now) := by
+    unfold PN restartLog recoverFromWal
+    exact nodup_restoreAll _ _ _ _ (nodup_restoreAll _ _ _ _ (nodup_restoreAll _ _ _ _ (by simp [mKeys])))
+  -- it is a key of the pending map ...
+  have hr : (⟨x, ip.parts, ip.votes⟩ : RecTx) ∈ classify (scan L).inProgress ip.phase :=
+    (mem_classify _ _ _).mpr ⟨ip, hm, rfl, rfl, rfl⟩
+  have key : ∀ (rs : List RecTx) (ph : Phase) (p : List (Nat × Tx)), (∃ r ∈ rs, r.tx = x) ∨ x ∈ mKeys p →
+      x ∈ mKeys (restoreAll rs ph now p) := by
+    intro rs ph p h
+    rcases lookup_restoreAll rs ph now p x with ⟨r, _, _, hl⟩ | ⟨hn, hl⟩
+    · exact mLookup_some_mem_keys _ _ _ hl
+    · rcases h with ⟨r, hr, hx⟩ | h
+      · exact absurd hx (hn r hr)
+      · cases hlk : mLookup x p with
+        | none => exact absurd hlk (mLookup_ne_none_of_mem_keys x p h)
+        | some t => rw [hlk] at hl; exact mLookup_some_mem_keys _ _ _ hl
+  have hk : x ∈ mKeys (restartLog cfg L now).pending := by
+    unfold restartLog recoverFromWal
+    simp only [fromEntries, recoveryOf]
+    rcases hp with h | h | h
+    · rw [h] at hr
+      exact key _ _ _ (Or.inr (key _ _ _ (Or.inr (key _ _ _ (Or.inl ⟨_, hr, rfl⟩)))))
+    · rw [h] at hr
+      exact key _ _ _ (Or.inr (key _ _ _ (Or.inl ⟨_, hr, rfl⟩)))
+    · rw [h] at hr
+      exact key _ _ _ (Or.inl ⟨_, hr, rfl⟩)
+  -- ... and whatever is pending under `x` is the restored image of the scan's entry
+  cases hl : mLookup x (restartLog cfg L now).pending with
+  | none => exact absurd hl (mLookup_ne_none_of_mem_keys _ _ hk)
+  | some t =>
+    obtain ⟨ip', hm', _, ht⟩ := restart_pending cfg L now x t hl
+    have := mem_unique_of_nodup _ (nodup_scan L) x ip' ip hm' hm
+    subst this
+    rw [ht]
 
 end Neumann.TxWal
